@@ -12,7 +12,7 @@ func init() {
 		Rule:       "Each run is one of: (a) a bufiox reader history in which every slice returned by Next/Peek is retained and re-verified after every later operation, co-tenant step and pool flush until the next Release; (b) a bufiox writer history with late, partial and repeated fills of open regions up to the Flush; (c) skip-decoder results retained until their horizon. Caller memory (bytes-reader slice, WriteBinary payloads, bytes-writer initial slice) is registered with the allocator shim and compared with a snapshot after every operation. Allocator: ledger+poison, fence (guard pages, PROT_NONE on free) or the real mcache, always with the adversarial co-tenant.",
 		Components: realComponents,
 		Probes: []string{"slice_retained_across_growth", "slice_retained_across_3_growths", "release_with_unread_tail", "region_filled_after_growth",
-			"cotenant_got_buffer_freed_by_instance", "bytes_reader_growth", "bytes_writer_grown_out_of_initial", "rsd_grow_with_prefix"},
+			"cotenant_got_buffer_freed_by_instance", "bytes_reader_growth", "bytes_writer_grown_out_of_initial", "rsd_grow_with_prefix", "bytes_writer_reused_after_flush"},
 	})
 }
 
@@ -71,22 +71,21 @@ func runC09(c *sim.Ctx) {
 		c.Count("cfg.scenario.writer_regions")
 		sc := newWriterScenario(c)
 		m := sc.m
+		m.multiFlushBytes = true
 		co := newCoTenant(c, true)
 		// lazy-fill-heavy mix
 		weights := []int{3 + cfg.Choose(4), 1 + cfg.Choose(3), 2 + cfg.Choose(4), cfg.Choose(3), 0}
 		nops := 1 + cfg.Choose(maxOps)
 		for i := 0; i < nops; i++ {
-			if m.target != nil && m.epoch > 0 {
-				break
-			}
 			sc.step(st, weights)
 			m.checkPayloads("after an operation")
 			co.step()
+			m.checkPayloads("after a co-tenant step")
 			if m.failed {
 				break
 			}
 		}
-		if !m.failed && (m.target == nil || m.epoch == 0) {
+		if !m.failed {
 			for _, it := range m.items {
 				if it.reg != nil && it.reg.filled != nil {
 					m.fill(it.reg, 0, len(it.reg.b))
